@@ -2045,7 +2045,10 @@ theorem renderDoc_el (exts name attrs cs) :
 
 /-- the one closed fact about Lean's `String.replace` that cannot be established by kernel evaluation
     (`String.replace` runs on an opaque well-founded fixpoint and core has no lemmas about it): the
-    constant format name contains no `]]>`, so escaping leaves it alone.  `#eval` confirms it. -/
+    constant format name contains no `]]>`, so escaping leaves it alone.  `#eval` confirms it.
+    (Since `cdataEscape` became a structural recursion on characters this is a THEOREM:
+    `XmlP.formatNameUnescaped` in E57/Proofs/XmlRoundTrip.lean, by `decide`; `XmlP.C04_text_roundtrip`
+    uses `document_text` with it.) -/
 def FormatNameUnescaped : Prop :=
   cdataEscape "ASTM E57 3D Imaging Data File" = "ASTM E57 3D Imaging Data File"
 
